@@ -24,6 +24,21 @@ Fixpoint be_bytes (n : nat) (x : N) : list N :=
   | S n' => be_bytes n' (x / 256) ++ [x mod 256]
   end.
 
+(** compact transport of byte strings to and from the check (32 bytes per number); used only by the
+    correspondence run so that long lists need not be parsed / printed element by element *)
+Definition N_of_bytes (l : list N) : N := fold_left (fun a b => a * 256 + b) l 0.
+Fixpoint pack_words (fuel : nat) (l : list N) : list N :=
+  match fuel with
+  | O => []
+  | S f => match l with [] => [] | _ => N_of_bytes (firstn 32 l) :: pack_words f (skipn 32 l) end
+  end.
+Definition pack (l : list N) : N * list N := (len l, pack_words (length l) l).
+Fixpoint unpack (n : nat) (ws : list N) : list N :=
+  match ws with
+  | [] => []
+  | w :: rest => be_bytes (Nat.min 32 n) w ++ unpack (n - 32) rest
+  end.
+
 (** [TransactionHeader] *)
 Record header : Type := mkHeader {
   h_sender : list N;       (* AccountAddress, 32 bytes *)
